@@ -82,7 +82,7 @@ func c10Run(ctx *core.Ctx) {
 				}
 			}
 		}
-		for rep := 0; rep < 4; rep++ {
+		for rep := 0; rep < 8; rep++ {
 			for _, fk := range []string{"nostarttls", "454", "garbage", "injected", "good", "goodbare", "injectedbare"} {
 				emit(c10Case{Kind: "cli", Fake: fk, API: "NewClientStartTLS", Pre: fmt.Sprint(rep)})
 			}
